@@ -975,3 +975,154 @@ def gen_registry(seed, mode="loop"):
         sc.main = [op for op in sc.main if op[0] != "LOOP_NONE"]
     finalize_main(sc)
     return sc
+
+
+def gen_batching(seed, mode="loop"):
+    """C13: one target module with LOW / NORMAL / HIGH subscriptions and a descriptor source; serialised production: after
+    every burst the driver idles for more poll batches than events are outstanding, so arrival order and the settings in
+    force at each arrival are unambiguous"""
+    r = random.Random(seed * 37 + 17)
+    sc = Sc(mode, "batching seed=%d" % seed)
+    driven_skeleton(sc)
+    T, S2 = 1, 2
+    sc.mod(T, "target", 0, r.choice([0, 4]))
+    sc.mod(S2, "sender", 0, 0)
+    sc.cb(T, "stop", "*", [])
+    sc.cb(T, "evt", "*", [])
+    sc.cb(S2, "evt", "*", [])
+    sc.main += [("reg", T), ("reg", S2), ("start", T), ("start", S2)]
+    tl, tn, th = sc.topic("alpha"), sc.topic("beta"), sc.topic("gamma")
+    sc.main += [("sub", T, tl, SRC_LOW, sc.ud()), ("sub", T, tn, r.choice([0, SRC_NORM]), sc.ud()), ("sub", T, th, SRC_HIGH, sc.ud())]
+    sc.main += [("fd_open", 1, 0, 0), ("fd_reg", T, 1, 0, sc.ud())]
+    sc.meta["batch_target"] = T
+    sc.meta["batch_fds"] = {1: T}
+    sc.meta["serialised"] = True
+    sc.meta["max_ufd"] = 4
+    use_timeout = r.random() < 0.12
+    sc.meta["batch_timeout_used"] = use_timeout
+    steps = []
+
+    def settle(n):
+        for _ in range(n + 2):
+            steps.append([])
+
+    if r.random() < 0.7:
+        sc.main.append(("bsize", T, r.choice([0, 1, 2, 3, 7, 2, 3])))
+    for phase in range(r.randrange(3, 10)):
+        x = r.random()
+        if x < 0.2:
+            steps.append([("bsize", T, r.choice([0, 1, 2, 3, 7, 64]))])
+        elif x < 0.3 and use_timeout:
+            if r.random() < 0.5:
+                # set-then-clear: afterwards (no size, no timeout) normal events are delivered at once again
+                steps.append([("bsize", T, 0), ("btimeout", T, r.choice([3000000, 5000000]))])
+                steps.append([("btimeout", T, 0)])
+                steps.append([("publish", S2, tn, sc.pay(), 0)])
+                settle(1)
+                continue
+            steps.append([("btimeout", T, r.choice([0, 0, 3000000, 5000000]))])
+        elif x < 0.32:
+            steps.append([("pause", T)])
+            n = r.randrange(1, 4)
+            steps.append([("publish", S2, r.choice([tl, tn, th]), sc.pay(), 0) for _ in range(n)])
+            steps.append([("resume", T)])
+            settle(n)
+            continue
+        elif x < 0.38:
+            steps.append([("stop", T)])
+            steps.append([("start", T), ("sub", T, tl, SRC_LOW, sc.ud()), ("sub", T, tn, 0, sc.ud()), ("sub", T, th, SRC_HIGH, sc.ud()), ("fd_reg", T, 1, 0, sc.ud())])
+            steps.append([("publish", S2, tn, sc.pay(), 0)])        # probe: settings are back to default
+            settle(1)
+            continue
+        n = r.randrange(1, 6)
+        ops = []
+        kind = r.choice(["ps", "ps", "ps", "fd"])
+        if kind == "fd":
+            n = min(n, 3)
+            for _ in range(n):
+                ops.append(("fd_write", 1))
+        else:
+            for _ in range(n):
+                y = r.random()
+                if y < 0.35:
+                    ops.append(("publish", S2, tn, sc.pay(), 0))
+                elif y < 0.6:
+                    ops.append(("publish", S2, tl, sc.pay(), 0))
+                elif y < 0.75:
+                    ops.append(("publish", S2, th, sc.pay(), 0))
+                else:
+                    ops.append(("tell", S2, T, sc.pay(), 0))      # (no broadcast: it would also wake the driver and eat settle steps)
+        steps.append(ops)
+        settle(n)
+        if use_timeout:
+            steps.append([("sleep", 6000)])
+            settle(1)
+    driven_finish(sc, steps, rng=r)
+    finalize_main(sc)
+    return sc
+
+
+def gen_stash_become(seed, mode="loop"):
+    """C16/C17: a target module that stashes told / published events from inside its handlers, unstash(n) with every n around
+    the stash size from inside handlers and from driver steps, become/unbecome from both places, replays under another
+    handler, stop/start cycles"""
+    r = random.Random(seed * 41 + 19)
+    sc = Sc(mode, "stash_become seed=%d" % seed)
+    driven_skeleton(sc)
+    T, S2 = 1, 2
+    sc.mod(T, "target", 0, r.choice([0, 4, 6]))
+    sc.mod(S2, "sender", 0, 0)
+    for k in ("start", "stop"):
+        sc.cb(T, k, "*", [], ret=1)
+    sc.cb(S2, "evt", "*", [])
+    sc.main += [("reg", T), ("reg", S2), ("start", T), ("start", S2)]
+    tn, th, tl = sc.topic("beta"), sc.topic("gamma"), sc.topic("alpha")
+    sc.main += [("sub", T, tn, 0, sc.ud()), ("sub", T, th, SRC_HIGH, sc.ud()), ("sub", T, tl, SRC_LOW, sc.ud())]
+    sc.main += [("fd_open", 1, 0, 0), ("fd_reg", T, 1, 0, sc.ud())]
+    sc.meta["max_ufd"] = 4
+    nmax = [1, 2, 3, -1, 1, 2, 5, 64]
+
+    def hops():
+        ops = []
+        for _ in range(r.randrange(0, 4)):
+            x = r.random()
+            if x < 0.45:
+                ops.append(("stash", -1, r.randrange(0, 3)))
+            elif x < 0.6:
+                ops.append(("unstash", -1, r.choice(nmax)))
+            elif x < 0.8:
+                ops.append(("become", -1, r.randrange(4)))
+            else:
+                ops.append(("unbecome", -1))
+        return ops
+    for n in range(30):
+        sc.cb(T, "evt", n, hops() if r.random() < 0.7 else [])
+    sc.cb(T, "evt", "*", [])
+    steps = []
+    for k in range(r.randrange(6, 30)):
+        ops = []
+        for _ in range(r.randrange(0, 4)):
+            x = r.random()
+            if x < 0.3:
+                ops.append(("tell", S2, T, sc.pay(), 0))
+            elif x < 0.5:
+                ops.append(("publish", S2, r.choice([tn, tn, th, tl]), sc.pay(), 0))
+            elif x < 0.58:
+                ops.append(("fd_write", 1))
+            elif x < 0.7:
+                ops.append(("unstash", T, r.choice(nmax + [0])))
+            elif x < 0.8:
+                ops.append(("become", T, r.randrange(4)))
+            elif x < 0.87:
+                ops.append(("unbecome", T))
+            elif x < 0.92:
+                ops.append((r.choice(["pause", "resume"]), T))
+            elif x < 0.96:
+                ops += [("stop", T)]
+            else:
+                ops += [("start", T), ("sub", T, tn, 0, sc.ud()), ("sub", T, th, SRC_HIGH, sc.ud()), ("fd_reg", T, 1, 0, sc.ud())]
+        steps.append(ops)
+    steps += [[], [("unstash", T, -1)], []]
+    driven_finish(sc, steps, rng=r)
+    finalize_main(sc)
+    return sc
